@@ -426,7 +426,7 @@ SCALE = {
     # family -> [(probe, n)]
     "descriptor": [("sig-junk", 200000), ("sig-junk-param", 200000), ("sig-arrays", 200000), ("sig-params", 100000), ("sig-class", 100000)],
     "trace-text": [("text-depth", 200000), ("trace-frames", 200000)],
-    "stacktrace-depth-moderate": [(f"trace-op-{op}", 5000) for op in ("parse", "drop", "display", "typed-mapper", "typed-cache", "eq", "clone", "debug")],
+    "stacktrace-depth-moderate": [(f"trace-op-{op}", 3000) for op in ("parse", "drop", "display", "typed-mapper", "typed-cache", "eq", "clone", "debug")],
     "stacktrace-depth": [(f"trace-op-{op}", 200000) for op in ("parse", "eq", "drop", "clone", "display", "debug", "typed-mapper", "typed-cache")],
 }
 
@@ -624,7 +624,7 @@ def c08(run, scratch):
         run.sample({"levels": c["levels"], "spec_typed": c["want"]["typed"]})
     text_trace(run, scratch, "Trace_Text_typed", "typed", 150 if t else 30, 40, _c08_corrupt,
                lambda e: e["t"] == "typed", workers=14 if t else 10, files=SMALL_CORPUS[:2])
-    # a cause chain of 5000 levels must go through typed remapping; 200000 levels are finding F8 (recursion per level)
+    # a cause chain of 3000 levels must go through typed remapping; 200000 levels are finding F8 (recursion per level)
     scale_probes(run, scratch, ["stacktrace-depth-moderate", "stacktrace-depth"], only=["typed"])
     run.exhaustive = False
     run.assumptions += COMMON_ASSUME
@@ -645,7 +645,7 @@ def c17(run, scratch):
             run.sample({"levels": c["levels"]})
     text_trace(run, scratch, "Trace_Text_rt", "rt", 40 if t else 10, 300 if t else 150, _c17_corrupt,
                lambda e: e["t"] == "rt", workers=14 if t else 10)
-    # cause chains of 5000 levels through parse / Display / == / Clone / Debug / Drop; 200000 levels: finding F8
+    # cause chains of 3000 levels through parse / Display / == / Clone / Debug / Drop; 200000 levels: finding F8
     scale_probes(run, scratch, ["stacktrace-depth-moderate", "stacktrace-depth"], only=["parse", "display", "eq", "clone", "debug", "drop"])
     run.exhaustive = False
     run.assumptions += COMMON_ASSUME + ["domain of the law: top level carries an exception or a frame; cause levels carry an "
